@@ -489,3 +489,23 @@ package stream
 //@ ensures.dynamic[C15,C10] ty == "dynamic" ==> typeis(as(result, "*vBucketDiscovery").membership, "*membership.dynamicMembership")
 //@ ensures.shape[C15] typeis(result, "*vBucketDiscovery") && as(result, "*vBucketDiscovery").vBucketNumber == vBucketNumber && as(result, "*vBucketDiscovery").membership != nil
 //@ modifies calls("config.(*Dcp).GetCouchbaseMetadata"), calls("config.(*Dcp).GetCouchbaseMembership"), calls(EventBus.Bus.SubscribeAsync), calls("kubernetes.getPodOrdinalFromHostname"), calls("couchbase.(*cbMembership).register"), calls("couchbase.(*cbMembership).createIndex"), calls("couchbase.CreatePath"), calls("couchbase.UpdateDocument"), calls("couchbase.CreateDocument"), calls("gocbcore.(*Agent).MutateIn"), calls("gocbcore.(*Agent).Set"), calls(couchbase.AsyncOp.Wait), calls(gocbcore.PendingOp.Cancel), calls(select.case), calls(couchbase.Client.GetMetaAgent), calls("couchbase.(*cbMembership).startHeartbeat"), calls("couchbase.(*cbMembership).startMonitor"), calls("time.(Time).UnixNano")
+
+// ---------- who asks for a save (C05): the explicit Commit path and the periodic schedule ----------
+//@ func (*stream).Save
+//@ params s
+//@ props C05 C13
+//@ requires s != nil && s.checkpoint != nil
+//@ ensures.delegates[C05,C13] calls(stream.Checkpoint.Save) == 1 && arg(stream.Checkpoint.Save, 0, recv) == s.checkpoint
+//@ modifies calls(stream.Checkpoint.Save)
+
+//@ iface stream.Checkpoint.Save
+//@ params recv
+//@ modifies nothing
+
+//@ func (*checkpoint).StartSchedule
+//@ params s
+//@ props C05
+//@ requires s != nil && s.config != nil && logger.Log != nil
+//@ ensures.automatic_means_scheduled[C05] s.config.Checkpoint.Type == "auto" ==> dcalls("go:stream.(*checkpoint).StartSchedule$1") == 1 && captured(darg("go:stream.(*checkpoint).StartSchedule$1", 0, 0), "stream.(*checkpoint).StartSchedule$1", "s") == s
+//@ ensures.manual_means_not_scheduled[C05] s.config.Checkpoint.Type != "auto" ==> dcalls("go:stream.(*checkpoint).StartSchedule$1") == 0
+//@ modifies calls("go:stream.(*checkpoint).StartSchedule$1")
